@@ -1,4 +1,5 @@
 """C07 - send callbacks are truthful and fire exactly once; every datagram is resolved exactly once."""
+import random
 import collections
 
 from checks.common import UdpCheck, gen_traffic, limits, Monitor, ConnectionStatus, FragExpiryProbe
@@ -135,6 +136,12 @@ class C07(UdpCheck):
             plan.append({"op": "forge", "global": True, "t": round(t0 + rng.random() * (t1 - t0), 4), "frm": frm, "to": to,
                          "type": rng.choice([1, 2, 4, 6]), "inner": [rng.choice([4, 6])] * rng.choice([0, 1, 2]),
                          "ack": "all"})
+        rng2 = random.Random("c07-extra|%s" % (rng.getstate()[1][:3],))         # (does not consume from the main stream)
+        if rng2.random() < 0.25:
+            # the server application greets every new client from inside its connect handler - with callbacks
+            for j in range(rng2.choice([1, 2])):
+                plan.append({"op": "hgreet", "t": 0.0, "len": rng2.choice([5, 300, 2500]), "retry": rng2.choice([0, -1, -1]), "cb": True,
+                             "api": "send", "kind": 0})
         return case
 
     def gen_burst(self, rng, tier, i):
